@@ -71,6 +71,8 @@ type Gen struct {
 	callees   map[*ssa.Function]bool // repo callees referenced (their contract axioms are emitted)
 	calleeOrd []*ssa.Function
 	libs      map[string]bool // library symbols referenced
+	groups    []string        // loop-invariant groups with a guard constant
+	declGroup map[int]string  // index into decls -> group of that assumption
 	nHsk      int             // counter of named witnesses of existential hypotheses
 	goalSk    []Term          // goal Skolem constants of the function being verified (instantiation points for quantified callee postconditions)
 	tags      map[string]bool // property tags whose facts may be used as premises (nil = all)
@@ -100,6 +102,39 @@ func (g *Gen) fresh(base string) string {
 }
 
 func (g *Gen) declare(s string) { g.decls = append(g.decls, s) }
+
+// group returns the guard constant of a loop-invariant group; grouped invariants are assumed under their guard and
+// a goal switches on only the groups it names (dropping assumptions is sound, and keeps each query small).
+func (g *Gen) group(name string) Term {
+	c := "grp!" + name
+	for _, n := range g.groups {
+		if n == name {
+			return c
+		}
+	}
+	g.groups = append(g.groups, name)
+	g.declare("(declare-fun " + c + " () Bool)")
+	return c
+}
+
+// groupLines are the script lines that switch the groups on or off for one goal (all on when enabled is nil).
+func (g *Gen) groupLines(enabled []string, all bool) []string {
+	var out []string
+	for _, n := range g.groups {
+		on := all
+		for _, e := range enabled {
+			if e == n {
+				on = true
+			}
+		}
+		if on {
+			out = append(out, "(assert grp!"+n+")")
+		} else {
+			out = append(out, "(assert (not grp!"+n+"))")
+		}
+	}
+	return out
+}
 func (g *Gen) assert(t Term)    { g.decls = append(g.decls, "(assert "+t+")") }
 
 // declConst declares an uninterpreted constant or, when bound vars are in
@@ -527,7 +562,17 @@ func (g *Gen) script(extra []string) string {
 	for _, d := range g.zarrs {
 		b.WriteString(d + "\n")
 	}
-	for _, d := range g.decls {
+	// assumptions of a loop-invariant group the goal switches off are left out altogether
+	off := map[string]bool{}
+	for _, e := range extra {
+		if strings.HasPrefix(e, "(assert (not grp!") {
+			off[strings.TrimSuffix(strings.TrimPrefix(e, "(assert (not grp!"), "))")] = true
+		}
+	}
+	for i, d := range g.decls {
+		if grp, ok := g.declGroup[i]; ok && off[grp] {
+			continue
+		}
 		b.WriteString(d + "\n")
 	}
 	for _, d := range litFacts {
